@@ -331,7 +331,9 @@ func (s *Sim) Learn(st *Step) {
 		}
 	}
 	if a.Kind == "oauth_cb" {
-		if _, ok := bs.OAuthState[a.Secret]; ok && a.Secret != "" {
+		// spent once a matching callback made the session drop it (if the session still holds it,
+		// that very callback has already been reported by the C14 monitor)
+		if _, ok := bs.OAuthState[a.Secret]; ok && a.Secret != "" && rec.SessOut["oauth2_state"] != a.Secret {
 			delete(bs.OAuthState, a.Secret)
 			bs.OAuthSpent[a.Secret] = true
 		}
